@@ -43,3 +43,13 @@ func U1(a uint64) int { return -4000 - int(a&0xff) }
 //
 //go:noinline
 func B1(a int64) int { return -5000 - int(a&0xff) }
+
+// VM is a variadic method with one fixed parameter.
+//
+//go:noinline
+func (s *S) VM(a int, r ...int) int { return -9000 - s.ID - a - 10*len(r) }
+
+// VI is a variadic function whose tail elements are interface{} (an element may itself be a slice).
+//
+//go:noinline
+func VI(a string, r ...interface{}) int { return -9500 - len(a) - 10*len(r) }
